@@ -206,7 +206,7 @@ def b_configs(job):
 BUILDERS = {"answers": b_answers, "models": b_models, "incremental": b_incremental, "configs": b_configs}
 
 def build(job):
-    import engine, termsdrv, tsolverdrv, ratdrv, stopdrv, threadsdrv  # register their builders
+    import engine, termsdrv, tsolverdrv, ratdrv, stopdrv, threadsdrv, numlit  # register their builders
     try:
         return BUILDERS[job["builder"]](job)
     except Exception as ex:
